@@ -33,6 +33,33 @@ def sysinfo(xpt):
     return scale, ev, vec, big
 
 
+def solver_sysinfo(itp):
+    """(scale, eigenvalues, eigenvectors, kept) of the scaled KKT matrix as
+    the SOLVER decomposed it (read from its own per-set cache, which it
+    fills on every solve), so that the monitor knows exactly which
+    eigenvalues were truncated and how small the smallest kept one is.
+    Falls back to the monitor's own decomposition."""
+    cache = getattr(itp, "_lhs_cache", None)
+    scale = np.max(np.linalg.norm(itp.xpt, axis=0), initial=EPS)
+    if cache is not None and np.array_equal(cache.get("xpt"), itp.xpt):
+        ev, vec = cache["eigh"]
+        ev = np.array(ev, dtype=float, copy=True)
+        return scale, ev, np.array(vec, copy=True), np.abs(ev) > EPS
+    scale, ev, vec, big = sysinfo(itp.xpt)
+    if ev is None:
+        return scale, None, None, None
+    # unknown truncation decision near the threshold: be conservative
+    kept = np.abs(ev) > 100.0 * EPS
+    return scale, ev, vec, kept
+
+
+def cond_kept(ev, kept):
+    aev = np.abs(ev)
+    if not np.any(kept):
+        return np.inf
+    return aev.max() / aev[kept].min()
+
+
 def cond_of(ev, big):
     """Conditioning that governs the solver's solve.  Eigenvalues within a
     factor 100 of the solver's truncation threshold (EPS) may or may not be
@@ -68,6 +95,7 @@ class InterpMonitor:
         self.check_values = check_values
         self.was_skipping = False
         self.shift_mag = {}
+        self.polluted = 0
 
     # ---------------------------------------------------------------- utils
     def models_of(self, m):
@@ -80,7 +108,7 @@ class InterpMonitor:
 
     def fresh(self, m):
         itp = m.interpolation
-        scale, ev, vec, big = sysinfo(itp.xpt)
+        scale, ev, vec, big = solver_sysinfo(itp)
         npt = itp.npt
         nn = npt + itp.n + 1
         self.tol = {}
@@ -88,7 +116,7 @@ class InterpMonitor:
             if ev is None or not np.all(np.isfinite(vals)):
                 self.tol[name] = np.inf
                 continue
-            cond = cond_of(ev, big)
+            cond = cond_kept(ev, big)
             t = nn * EPS * cond * np.linalg.norm(vals)
             if not big.all():
                 b = np.zeros(nn)
@@ -206,15 +234,18 @@ class InterpMonitor:
                     f"after the update of index {k} the stored values / "
                     f"point are not the ones handed in",
                     mechanism="recorded_stored"))
-        scale, ev, vec, big = sysinfo(itp.xpt)
+        scale, ev, vec, big = solver_sysinfo(itp)
         npt = itp.npt
         nn = npt + itp.n + 1
+        pollute = []
         for name in list(self.tol):
             if ev is None or name not in pre["d"]:
                 self.tol[name] = np.inf
                 continue
-            cond = cond_of(ev, big)
+            cond = cond_kept(ev, big)
             dv = pre["d"][name]
+            if dv != 0.0 and (not big.all() or cond > 1e12):
+                pollute.append(name)
             add = nn * EPS * cond * abs(dv)
             if not big.all():
                 b = np.zeros(nn)
@@ -225,6 +256,14 @@ class InterpMonitor:
                 add = np.inf
             self.tol[name] = self.tol[name] + add
         self.check(models, "update ill=%s" % bool(out))
+        # A correction solved on a (numerically) singular system is a
+        # least-squares / heavily amplified solution: it may leave cancelling
+        # coefficients of size |d|/lambda_min (1e31 observed) in the model,
+        # which later geometry changes turn into O(1) errors.  The set was
+        # not poised: no claim for that model until it is rebuilt.
+        for name in pollute:
+            self.tol[name] = np.inf
+            self.polluted += 1
 
     def on_update_exc(self, run, models, args, exc):
         self.pre = None
@@ -268,4 +307,5 @@ class InterpMonitor:
                 "contract_events": self.events,
                 "ill_conditioned_updates": self.ill,
                 "recoveries_after_singularity": self.recovered,
-                "recorded_value_checks": self.value_checks}
+                "recorded_value_checks": self.value_checks,
+                "models_polluted_by_singular_update": self.polluted}
